@@ -143,83 +143,116 @@ def rule_B(run, prog):
 
 
 def rule_C(run, prog):
+    from .. import pat
     rid = "C17-C"
     f = prog.func(PP + ".get_PropagationMatrix")
-    top = [s for s in f.node.body if isinstance(s, ast.If)]
-    ok = len(top) >= 1 and norm(top[0].test) == "timeaxis.is_subset_of(self.timeAxis)"
+    prm = [a_.arg for a_ in f.node.args.args if a_.arg != "self"]
+    TA = prm[0] if prm else "timeaxis"
+    top = [s_ for s_ in f.node.body if isinstance(s_, ast.If)]
+    ok = len(top) >= 1 and norm(top[0].test) == "%s.is_subset_of(self.timeAxis)" % TA
     run.obligation(rid, "PopulationPropagator.get_PropagationMatrix", ok, key="guard",
                    message="the sub-axis must be checked with is_subset_of before anything is computed",
                    loc=f.loc())
     if not ok:
         return
     blk = top[0].body
-    st = {norm(s): s for s in ast.walk(ast.Module(body=blk, type_ignores=[])) if isinstance(s, ast.stmt)}
-    ok = "U0 = numpy.eye(N)" in st and "U[:, :, 0] = U0" in st
-    run.obligation(rid, "PopulationPropagator.get_PropagationMatrix", ok, key="identity-start",
-                   message="propagation matrix must start from the identity (after the start offset)",
+    tx = [norm(s_) for s_ in blk]
+    allst = [norm(s_) for s_ in ast.walk(ast.Module(body=blk, type_ignores=[])) if isinstance(s_, ast.stmt)]
+    env0 = {"TA": TA}
+    e, pos = pat.seq(tx, ["$U0 = numpy.eye($N)", "$U[:, :, 0] = $U0"], env0)
+    run.obligation(rid, "PopulationPropagator.get_PropagationMatrix", e is not None, key="identity-start",
+                   message="propagation matrix must start from the identity (after the start offset): %s"
+                   % (pos if e is None else "ok"), loc=f.loc())
+    e = e or env0
+    e2, pos = pat.seq(tx, ["$KD, $SS = numpy.linalg.eig(self.KK)", "$S1 = numpy.linalg.inv($SS)"], e)
+    run.obligation(rid, "PopulationPropagator.get_PropagationMatrix", e2 is not None, key="spectral",
+                   message="the exponential must be built from eig(K) and the inverse of its eigenvector matrix",
                    loc=f.loc())
-    ok = "Kd, SS = numpy.linalg.eig(self.KK)" in st and "S1 = numpy.linalg.inv(SS)" in st
-    run.obligation(rid, "PopulationPropagator.get_PropagationMatrix", ok, key="spectral",
-                   message="the exponential must be built from eig(K) and the inverse of its eigenvector "
-                           "matrix", loc=f.loc())
-    # spectral exponential expressions
+    if e2 is None:
+        return
+    e = e2
     S = Array.opaque("S", 2)
     S1 = Array.opaque("S1", 2)
     lam = Array.opaque("lam", 1)
-    for name, step_text in (("expKd_step", "timeaxis.step"), ("expKd_dt", "dt")):
-        asg = [s for s in st.values() if isinstance(s, ast.Assign) and norm(s.targets[0]) == name]
-        if len(asg) != 1:
-            raise AnalysisError("get_PropagationMatrix: assignment of %s not found" % name)
-        v = eval_with(prog, f, asg[0].value, {"SS": S, "S1": S1, "Kd": lam, step_text: Expr.factor("h")})
-        okv = isinstance(v, Array) and v.rank == 2
-        detail = ""
-        if okv:
-            e = v.at("i", "j")
-            # expected: sum_k S[i,k] * exp{lam[k]*h} * S1[k,j]
-            fn = [n for n in e.names() if n.startswith("exp{")]
-            okv = len(fn) == 1
-            if okv:
-                want = (S.at("i", "k") * Expr.factor(fn[0], ("k",)) * S1.at("k", "j")).sum_over("k")
-                nf = normal(e - want)
-                okv = not nf and "lam" in fn[0] and "h" in fn[0]
-                detail = fn[0]
-        run.obligation(rid, "PopulationPropagator.get_PropagationMatrix", okv, key="exp:" + name,
-                       message="%s must be S . diag(exp(lambda * %s)) . S^-1" % (name, step_text), loc=f.loc(asg[0]),
-                       sample={"expression": norm(asg[0].value), "exponent": detail})
-    dtdef = [s for s in st.values() if isinstance(s, ast.Assign) and norm(s.targets[0]) == "dt"]
-    ok = len(dtdef) == 1 and norm(dtdef[0].value) == "timeaxis.start - self.timeAxis.start"
-    run.obligation(rid, "PopulationPropagator.get_PropagationMatrix", ok, key="offset-dt",
-                   message="start offset must be timeaxis.start - self.timeAxis.start", loc=f.loc())
-    # recurrence
-    loops = [s for s in blk if isinstance(s, ast.For) and norm(s.iter) == "range(1, timeaxis.length)"]
-    ok = len(loops) == 1 and [norm(s) for s in loops[0].body] == \
-        ["U[:, :, %s] = numpy.dot(expKd_step, U[:, :, %s - 1])" % (loops[0].target.id, loops[0].target.id)]
+    # step exponential: the matrix applied in the recurrence
+    loops = [s_ for s_ in blk if isinstance(s_, ast.For) and norm(s_.iter) == "range(1, %s.length)" % TA]
+    ok = len(loops) == 1 and len(loops[0].body) == 1
+    estep = None
+    if ok:
+        v = loops[0].target.id
+        m_ = pat.match("$U[:, :, %s] = numpy.dot($ES, $U[:, :, %s - 1])" % (v, v), norm(loops[0].body[0]), e)
+        ok = m_ is not None
+        if ok:
+            e = m_
+            estep = e["ES"]
     run.obligation(rid, "PopulationPropagator.get_PropagationMatrix", ok, key="recurrence",
                    message="U_i must be exp(K step) . U_{i-1} for i = 1 .. length-1", loc=f.loc(),
-                   sample={"loop": norm(loops[0]) [:120] if loops else None})
-    # offset applied once: exactly one of the two alternatives, under start mismatch
-    off = [s for s in blk if isinstance(s, ast.If) and norm(s.test) == "self.timeAxis.start != timeaxis.start"]
-    ok = len(off) == 1
+                   sample={"loop": norm(loops[0])[:120] if loops else None})
+    # offset: dt = sub-axis start - axis start; applied once
+    kdt, e_dt = pat.find(allst, "$DT = %s.start - self.timeAxis.start" % TA, e)
+    run.obligation(rid, "PopulationPropagator.get_PropagationMatrix", kdt is not None, key="offset-dt",
+                   message="start offset must be the sub-axis start minus the propagator's axis start", loc=f.loc())
+    exps = []
+    if estep is not None:
+        exps.append((estep, "%s.step" % TA))
+    edt = None
+    if kdt is not None:
+        k2, e3 = pat.find(allst, "$U0 = numpy.dot($ED, $U0)", dict(e_dt))
+        cands = [x for x in pat.find_all(allst, "$U0 = numpy.dot($ED, $U0)", dict(e_dt)) if x[1]["ED"] != estep]
+        if cands:
+            edt = cands[0][1]["ED"]
+            exps.append((edt, e_dt["DT"]))
+    for name, step_text in exps:
+        asg = [s_ for s_ in ast.walk(ast.Module(body=blk, type_ignores=[])) if isinstance(s_, ast.Assign)
+               and norm(s_.targets[0]) == name]
+        okv = len(asg) == 1
+        detail = ""
+        if okv:
+            v_ = eval_with(prog, f, asg[0].value, {e["SS"]: S, e["S1"]: S1, e["KD"]: lam, step_text: Expr.factor("h")})
+            okv = isinstance(v_, Array) and v_.rank == 2
+            if okv:
+                el = v_.at("i", "j")
+                fn = [n_ for n_ in el.names() if n_.startswith("exp{")]
+                okv = len(fn) == 1
+                if okv:
+                    want = (S.at("i", "k") * Expr.factor(fn[0], ("k",)) * S1.at("k", "j")).sum_over("k")
+                    okv = not normal(el - want) and "lam" in fn[0] and "h" in fn[0]
+                    detail = fn[0]
+        run.obligation(rid, "PopulationPropagator.get_PropagationMatrix", bool(okv), key="exp:" + step_text,
+                       message="the step matrix must be S . diag(exp(lambda * %s)) . S^-1" % step_text,
+                       loc=f.loc(asg[0]) if asg else f.loc(),
+                       sample={"expression": norm(asg[0].value) if asg else None, "exponent": detail})
+    off = [s_ for s_ in blk if isinstance(s_, ast.If) and norm(s_.test) in ("self.timeAxis.start != %s.start" % TA,
+                                                                         "%s.start != self.timeAxis.start" % TA)]
+    ok = len(off) == 1 and estep is not None
     if ok:
-        inner = [s for s in off[0].body if isinstance(s, ast.If)]
-        ok = len(inner) == 1 and \
-            norm(inner[0].test) == "timeaxis.start == self.timeAxis.start + Ns * timeaxis.step"
+        inner = [s_ for s_ in off[0].body if isinstance(s_, ast.If)]
+        ok = len(inner) == 1
         if ok:
-            a = [norm(s) for s in inner[0].body]
-            b = [norm(s) for s in inner[0].orelse]
-            ok = len(inner[0].body) == 1 and isinstance(inner[0].body[0], ast.For) and \
-                norm(inner[0].body[0].iter) == "range(Ns)" and \
-                [norm(s) for s in inner[0].body[0].body] == ["U0 = numpy.dot(expKd_step, U0)"] and \
-                b[-1] == "U0 = numpy.dot(expKd_dt, U0)" and sum(1 for x in b if x.startswith("U0 =")) == 1
-    run.obligation(rid, "PopulationPropagator.get_PropagationMatrix", ok, key="offset-once",
+            nsdef = pat.find([norm(s_) for s_ in off[0].body],
+                             "$NS = round((%s.start - self.timeAxis.start) / %s.step)" % (TA, TA), e)
+            ok = nsdef[0] is not None
+            if ok:
+                en = nsdef[1]
+                ok = pat.match("%s.start == self.timeAxis.start + $NS * %s.step" % (TA, TA), norm(inner[0].test), en) is not None
+                ok = ok and len(inner[0].body) == 1 and isinstance(inner[0].body[0], ast.For) and \
+                    pat.match("range($NS)", norm(inner[0].body[0].iter), en) is not None and \
+                    [norm(s_) for s_ in inner[0].body[0].body] == ["%s = numpy.dot(%s, %s)" % (e["U0"], estep, e["U0"])]
+                bb = [norm(s_) for s_ in inner[0].orelse]
+                ok = ok and edt is not None and bb and bb[-1] == "%s = numpy.dot(%s, %s)" % (e["U0"], edt, e["U0"]) and \
+                    sum(1 for x in bb if x.startswith(e["U0"] + " =")) == 1
+    run.obligation(rid, "PopulationPropagator.get_PropagationMatrix", bool(ok), key="offset-once",
                    message="a shifted start must be bridged exactly once: Ns steps of exp(K step) when it "
                            "fits, otherwise one exp(K dt)", loc=f.loc())
     g = prog.func("quantarhei.core.valueaxis.ValueAxis.is_subset_of")
-    stg = [norm(s) for s in g.node.body if not (isinstance(s, ast.Expr))]
-    need = ["Nst = round(self.step / axis.step)", "ret = ret and Nst * axis.step == self.step",
-            "ret = ret and (self.start in axis.data and self.start < axis.max)",
-            "ret = ret and self.max in axis.data"]
-    ok = all(n in stg for n in need)
+    ax = [a_.arg for a_ in g.node.args.args if a_.arg != "self"][0]
+    stg = [norm(s_) for s_ in g.node.body if not (isinstance(s_, ast.Expr))]
+    e, pos = pat.seq(stg, ["$R = True", "$NST = round(self.step / %s.step)" % ax,
+                           "$R = $R and $NST * %s.step == self.step" % ax], {}, ordered=False)
+    ok = e is not None and \
+        pat.find(stg, "$R = $R and (self.start in %s.data and self.start < %s.max)" % (ax, ax), e)[0] is not None and \
+        pat.find(stg, "$R = $R and self.max in %s.data" % ax, e)[0] is not None and \
+        pat.find(stg, "return $R", e)[0] is not None
     run.obligation(rid, "ValueAxis.is_subset_of", ok, key="subset",
                    message="is_subset_of must require an integer step ratio and both end points on the "
                            "parent axis", loc=g.loc(), sample={"statements": stg})
